@@ -137,8 +137,15 @@ func (k Keeper) AllocateTokensToStakers(ctx sdk.Context, operatorAddress sdk.Acc
 				if curStakerPower, err := k.StakingKeeper.CalculateUSDValueForStaker(ctx, staker, avsAddress, operatorAddress.Bytes()); err != nil {
 					logger.Error("curStakerPower error", "error", err)
 				} else {
-					stakersPowerMap[staker] = curStakerPower
-					globalStakerAddressList = append(globalStakerAddressList, staker)
+					// a staker can show up more than once (several assets, several AVSs):
+					// list it once and accumulate its power, so that the powers in the map
+					// add up to curTotalStakersPowers and the fractions below never exceed 1.
+					if prevPower, seen := stakersPowerMap[staker]; seen {
+						stakersPowerMap[staker] = prevPower.Add(curStakerPower)
+					} else {
+						stakersPowerMap[staker] = curStakerPower
+						globalStakerAddressList = append(globalStakerAddressList, staker)
+					}
 					curTotalStakersPowers = curTotalStakersPowers.Add(curStakerPower)
 				}
 			}
